@@ -761,9 +761,9 @@ def normalise(nodes, gen, ctx_bracket=False, lead=None, counters=None, strict=Fa
                 nodes.insert(i + 1, sep(ctx_bracket))
                 bump('repair:letter-after-command')
                 continue
-            if strict and not n.args and nxt[:1] and (nxt[0] in '[{'):
+            if strict and not punct and nxt[:1] and (nxt[0].isalpha() or nxt[0] in '*[{' or ATTACH_RE.match(nxt)):
                 nodes.insert(i + 1, sep(ctx_bracket))
-                bump('repair:strict-bracket-after-command')
+                bump('repair:strict-separator-after-command')
                 continue
             if not zero and ATTACH_RE.match(nxt):
                 nodes.insert(i + 1, sep(ctx_bracket))
